@@ -35,7 +35,7 @@ LEVEL_TEXT = ('Every observed call of every built-in transition function must pr
 LEVEL_NOTE = ('Trusted: refmodel.ref_pickndrop and the multiset definition in dynmon.py; holdable flags are read from the '
               'objects. Random states/chains and histories are sampled.')
 SHARDS = {'quick': 4, 'thorough': 16}
-BUDGET_S = {'quick': 60, 'thorough': 600}
+BUDGET_S = {'quick': 300, 'thorough': 2400}
 RULE = ('case = one observed call of a transition function (alone, in a random chain, or inside an environment step). '
         'non-trivial = PICK_N_DROP/ACTUATE with a front cell that is outside the grid or not plain Floor, or a held item, '
         'or a call of move_obstacles with at least one obstacle; distinct by (function, deep pre-state encoding, action).')
